@@ -1,6 +1,8 @@
 import Driver.Util
 import Driver.Env
 import Driver.Cb
+import Driver.Encode
+import Driver.Sim
 /-
 Line-protocol driver: one case per line, first token selects the engine, one reply line per case.
 Stateless across lines (a line is a complete case = a replay).  Core-only imports so that it links.
@@ -12,6 +14,9 @@ open Driver
 def dispatch (env : Env) (eng rest : String) : String :=
   match eng with
   | "cb" => Cb.run env.rw rest
+  | "enc" => Encode.runEnc env rest
+  | "acs" => Encode.runAcs env rest
+  | "sim" => Sim.run env rest
   | _ => "bad-engine"
 
 def handle (env : Env) (line : String) : String :=
